@@ -97,7 +97,7 @@ def plan(tier, seed):
     rng = random.Random(seed * 7919 + 15)
     rng.shuffle(cfgs)
     nshards = 32 if tier == "quick" else 64
-    pairs = 300 if tier == "quick" else 3000
+    pairs = 420 if tier == "quick" else 4200
     specs = []
     for i, part in enumerate(core.split(cfgs, nshards)):
         specs.append({"configs": part, "pairs": pairs, "seed": seed * 100003 + i})
@@ -119,6 +119,15 @@ def harness(cfg, unix):
     h = _harnesses.get(key)
     if h is None:
         if len(_harnesses) >= 48:
+            # keep this cache and SyncHarness's own server cache (which closes
+            # and evicts everything beyond 60 entries) in step, so that no
+            # harness held here ever refers to a closed server
+            for srv in list(SyncHarness._servers.values()):
+                try:
+                    srv.close()
+                except Exception:
+                    pass
+            SyncHarness._servers.clear()
             _harnesses.clear()
         try:
             h = SyncHarness(unix=bool(unix), **kw)
